@@ -349,7 +349,7 @@ fn run_case(rep: &mut Report, h: &Hostile, sample: bool) {
 }
 
 pub fn run_frame_level(ctx: Ctx) -> Report {
-    let n = ctx.tier.pick(200_000, 6_000_000);
+    let n = ctx.tier.pick(200_000, 3_000_000);
     run::run_sharded("C20", ctx.shards, move |shard, nshards, rep| {
         let mut rng = Rng::new(ctx.seed.wrapping_mul(389).wrapping_add(shard as u64) ^ 0xC20);
         for i in 0..n / nshards {
